@@ -6,7 +6,7 @@ import json
 import sys
 from pathlib import Path
 
-sys.path.insert(0, '/repo')
+sys.path.insert(0, __import__('os').environ.get('RV_REPO', '/repo'))
 
 
 def main():
